@@ -10,10 +10,14 @@ cd "$(dirname "$0")/.."
 VERIF_REPO="$WT" ./check "$ID" --tier "$TIER" 2>&1 | tail -${TAIL:-15}
 rc=${PIPESTATUS[0]}
 git -C /repo worktree remove --force "$WT"
-# restore generated tables to those of /repo
-/venv/bin/python - <<'PY' >/dev/null 2>&1
-import os,sys
-os.environ.pop("VERIF_REPO",None)
+# restore the generated Coq files to those of /repo (the trial regenerated them from the changed tree)
+PYTHONPATH=/repo PYTHONHASHSEED=0 /venv/bin/python - <<'PY' >/dev/null 2>&1
+import importlib, os, sys
+os.environ.pop("VERIF_REPO", None)
+sys.path.insert(0, ".")
+from harness import main as _m
+for name in _m.GEN_MODULES:
+    importlib.import_module("harness." + name).gen()
 PY
 echo "check rc=$rc"
 exit $rc
